@@ -430,9 +430,9 @@ def explore_function(fc: FunctionCase, bound: int) -> dict:
         res["undecided"].append((fc.key, f"cannot synthesise arguments: {fc.why}"))
         return res
     drivable = [p for p in fc.params if p.kind != "default"]
-    scalable = [p for p in drivable if p.kind in ("quantity", "number", "seq", "qvector",
+    scalable = [p for p in drivable if p.kind in ("quantity", "number", "seq", "qvector", "qvseq",
         "tupledecl", "nested")]
-    spellable = [p for p in drivable if p.kind in ("quantity", "seq", "qvector", "nested") and
+    spellable = [p for p in drivable if p.kind in ("quantity", "seq", "qvector", "qvseq", "nested") and
         p.dim is not None and not p.dim.dimensionless]
     # default tuple: all at m0 in SI; otherwise the first accepted tuple, simplest first
     base_scales: dict = {}
@@ -442,6 +442,8 @@ def explore_function(fc: FunctionCase, bound: int) -> dict:
         found = False
         menu = [1e-3, 1e3, 0.1, 10.0, -1.0]
         cands = []
+        if any(p.kind == "qvector" for p in drivable):
+            cands.append({"__vshape__": "axis"})  # mutually perpendicular vector arguments
         for p in scalable:
             for s in menu:
                 cands.append({p.name: s})
@@ -560,7 +562,7 @@ def explore_function(fc: FunctionCase, bound: int) -> dict:
         for s in SPELLINGS:
             judge(dict(base_scales), {p.name: s for p in spellable}, f"all:{s}")
     # all magnitudes rescaled together, including extreme scales (one deviation of the whole tuple)
-    quantities = [p for p in scalable if p.kind in ("quantity", "seq", "qvector", "nested")]
+    quantities = [p for p in scalable if p.kind in ("quantity", "seq", "qvector", "qvseq", "nested")]
     for g in EXTREME:
         if quantities:
             judge({**base_scales, **{p.name: base_scales.get(p.name, 1.0) * g for p in quantities}},
